@@ -72,7 +72,7 @@ def build(family: str, m: int, n: int, rng, extra: dict) -> np.ndarray:
         return g
     if family == "stationary":
         w = np.abs(rng.standard_normal(m)) + 0.1
-        if extra.get("nonneg_only"):
+        if extra.get("nonneg_only") and m >= 2:
             w[rng.integers(0, m)] = 0.0
         return g - np.outer(w, w @ g) / (w @ w)
     if family == "nonconflict":
